@@ -125,10 +125,11 @@ Fixpoint enum_loop (ms : list yaml) (cur : Z) (acc : entries) : res entries :=
   | _ => Crash
   end.
 
-(* _conv_real_ft_node.  NB: `byte-order` is NOT removed (the barectf 3 schema then rejects it). *)
+(* _conv_real_ft_node (`byte-order` is removed, like for integers: since fix 3990a98 in /repo) *)
 Definition conv_real (l : entries) : res entries :=
   let n := put "class" (YStr "real") l in
   let n := rename "align" "alignment" n in
+  let n := del "byte-order" n in
   match lookup "size" n with
   | Some (YMap sl) =>
       match lookup "exp" sl, lookup "mant" sl with
@@ -491,7 +492,7 @@ Definition major_version (tagged : bool) (root : yaml) : res Z :=
   | true, YMap _ => Ok 3%Z
   | true, _ => CfgErr "Expecting a map for the tag"
   | false, YMap _ => Ok 2%Z
-  | false, _ => Crash                                       (* assert type(root_node) is OrderedDict *)
+  | false, _ => CfgErr "Root (configuration) node is not an object"   (* since fix b10375b in /repo *)
   end.
 
 (* which parser _create_v3_parser builds: 3 = barectf 3 parser directly, 2 = barectf 2 parser first *)
